@@ -76,7 +76,8 @@ REGISTRY = {
                 oracle=[OD.oracle_c01_latin, OD.oracle_c01, i7_layout.oracle_kinarow]),
     "C02": dict(_design_prop(OD.oracle_c02, quick=50), correspondence=[i8_pipeline.corr_pipeline]),
     "C03": dict(_design_prop(OD.oracle_c03, quick=50), correspondence=[i8_pipeline.corr_pipeline]),
-    "C04": dict(_design_prop(OD.oracle_c04, quick=50), correspondence=[i9_randomgen.corr_randomgen]),
+    "C04": dict(_design_prop(OD.oracle_c04, quick=50), correspondence=[i9_randomgen.corr_randomgen],
+                oracle=[OD.oracle_c04_latin, OD.oracle_c04]),
     "C06": dict(_design_prop(OD.oracle_c06, quick=50), correspondence=[i9_randomgen.corr_randomgen]),
     "C07": dict(_design_prop(OD.oracle_c07, quick=45), correspondence=[i8_pipeline.corr_pipeline, i9_randomgen.corr_randomgen]),
     "C08": dict(_design_prop(OD.oracle_c08, quick=50), correspondence=[i8_pipeline.corr_pipeline]),
